@@ -2,6 +2,9 @@
 verus! {
 /// utf-8 encoding of a string's characters (uninterpreted; str::as_bytes / from_utf8_unchecked are its two directions)
 pub uninterp spec fn vx_utf8(s: Seq<char>) -> Seq<u8>;
+/// "n2db" is four ASCII bytes
+pub broadcast axiom fn ax_sig_len()
+    ensures #[trigger] vx_utf8("n2db"@).len() == 4;
 pub assume_specification [std::string::String::from_utf8_unchecked] (v: std::vec::Vec<u8>) -> (r: std::string::String)
     ensures vx_utf8(r@) == v@;
 /// R9 wrappers for `str::len` / `str::as_bytes` (vstd's own str::len spec says nothing about the byte length)
